@@ -45,7 +45,7 @@ package tendermint
 //@   requires once_per_round: s.state.step == types.StepPropose
 //@   modifies s.state.step, s.voteCounter
 //@   modifies maps
-//@   assigns calls_AddPrevote, arg_AddPrevote_prevote
+//@   assigns calls_AddPrevote, arg_AddPrevote_prevote, calls_AddProposal, arg_AddProposal_proposal
 //@   ensures step: s.state.step == types.StepPrevote
 //@   ensures msg: istype(result, *actions.BroadcastPrevote) && cast(result, *actions.BroadcastPrevote) != nil && fresh(cast(result, *actions.BroadcastPrevote))
 //@   ensures vote: cast(result, *actions.BroadcastPrevote).ID == id && cast(result, *actions.BroadcastPrevote).Round == old(s.state.round) && cast(result, *actions.BroadcastPrevote).Height == old(s.state.height)
@@ -80,7 +80,7 @@ package tendermint
 //@   requires upon: s.state.step == types.StepPropose && cachedProposal.ValidRound == -1
 //@   modifies s.state.step, s.voteCounter
 //@   modifies maps
-//@   assigns calls_AddPrevote, arg_AddPrevote_prevote
+//@   assigns calls_AddPrevote, arg_AddPrevote_prevote, calls_AddProposal, arg_AddProposal_proposal
 //@   ensures lock_rule: cast(result, *actions.BroadcastPrevote).ID != nil ==> cachedProposal.Valid && (old(s.state.lockedRound) == -1 || (old(s.state.lockedValue) != nil && (*old(s.state.lockedValue)).Hash() == *cachedProposal.ID))
 //@   ensures for_the_proposal: cast(result, *actions.BroadcastPrevote).ID == nil || cast(result, *actions.BroadcastPrevote).ID == cachedProposal.ID
 //@   ensures step: s.state.step == types.StepPrevote
@@ -96,7 +96,7 @@ package tendermint
 //@   requires upon: s.state.step == types.StepPropose && cachedProposal.ValidRound >= 0 && cachedProposal.ValidRound < s.state.round && quorumFor(cachedProposal.ValidRound, votecounter.Prevote, false, *cachedProposal.ID)
 //@   modifies s.state.step, s.voteCounter
 //@   modifies maps
-//@   assigns calls_AddPrevote, arg_AddPrevote_prevote
+//@   assigns calls_AddPrevote, arg_AddPrevote_prevote, calls_AddProposal, arg_AddProposal_proposal
 //@   ensures lock_rule: cast(result, *actions.BroadcastPrevote).ID != nil ==> cachedProposal.Valid && (old(s.state.lockedRound) <= cachedProposal.ValidRound || (old(s.state.lockedValue) != nil && (*old(s.state.lockedValue)).Hash() == *cachedProposal.ID))
 //@   ensures for_the_proposal: cast(result, *actions.BroadcastPrevote).ID == nil || cast(result, *actions.BroadcastPrevote).ID == cachedProposal.ID
 //@   ensures step: s.state.step == types.StepPrevote
@@ -158,6 +158,7 @@ package tendermint
 //@   requires s != nil
 //@   modifies s.voteCounter
 //@   modifies maps
+//@   assigns calls_AddProposal, arg_AddProposal_proposal
 //@   ensures msg: istype(result, *actions.BroadcastProposal) && cast(result, *actions.BroadcastProposal).Value == value && cast(result, *actions.BroadcastProposal).Round == s.state.round && cast(result, *actions.BroadcastProposal).Height == s.state.height && cast(result, *actions.BroadcastProposal).ValidRound == s.state.validRound
 
 // A round is started only if it was not used before at this height: a later round, or the
@@ -170,6 +171,7 @@ package tendermint
 //@   requires unused_round: r > s.state.round || heightFresh
 //@   modifies s.state.round, s.state.step, s.state.timeoutPrevoteScheduled, s.state.lockedValueAndOrValidValueSet, s.state.timeoutPrecommitScheduled, s.voteCounter
 //@   modifies maps
+//@   assigns calls_AddProposal, arg_AddProposal_proposal
 //@   sets heightFresh = false
 //@   ensures started: s.state.round == r && s.state.step == types.StepPropose
 //@   ensures proposes_valid_value_first: istype(result, *actions.BroadcastProposal) && old(s.state.validValue) != nil ==> cast(result, *actions.BroadcastProposal).Value == old(s.state.validValue)
@@ -182,6 +184,7 @@ package tendermint
 //@   modifies s.state.round, s.state.step, s.state.timeoutPrevoteScheduled, s.state.lockedValueAndOrValidValueSet, s.state.timeoutPrecommitScheduled, s.voteCounter
 //@   modifies maps
 //@   sets heightFresh = false
+//@   assigns calls_AddProposal, arg_AddProposal_proposal
 //@   ensures s.state.round == futureR && s.state.step == types.StepPropose
 
 // ---- timeouts ---------------------------------------------------------------------------------------------
@@ -191,7 +194,7 @@ package tendermint
 //@   requires s != nil
 //@   modifies s.state.step, s.voteCounter
 //@   modifies maps
-//@   assigns calls_AddPrevote, arg_AddPrevote_prevote
+//@   assigns calls_AddPrevote, arg_AddPrevote_prevote, calls_AddProposal, arg_AddProposal_proposal
 //@   ensures only_from_propose: calls_AddPrevote != old(calls_AddPrevote) ==> old(s.state.step) == types.StepPropose && old(s.state.height) == timeout.Height && old(s.state.round) == timeout.Round
 //@   ensures nil_vote: result != nil ==> len(result) == 2 && istype(result[1], *actions.BroadcastPrevote) && cast(result[1], *actions.BroadcastPrevote).ID == nil
 //@   ensures wal_first: result != nil ==> istype(result[0], *actions.WriteWAL)
@@ -213,7 +216,7 @@ package tendermint
 //@   requires s != nil && timeout.Round < (1<<63) - 1
 //@   modifies s.state.round, s.state.step, s.state.timeoutPrevoteScheduled, s.state.lockedValueAndOrValidValueSet, s.state.timeoutPrecommitScheduled, s.voteCounter
 //@   modifies maps
-//@   assigns heightFresh
+//@   assigns heightFresh, calls_AddProposal, arg_AddProposal_proposal
 //@   ensures next_round: result != nil ==> s.state.round == old(s.state.round) + 1
 //@   ensures wal_first: result != nil ==> len(result) == 2 && istype(result[0], *actions.WriteWAL)
 
@@ -228,7 +231,7 @@ package tendermint
 //@   requires s != nil && s.state.height < (1<<64) - 1
 //@   modifies s.state.height, s.state.lockedRound, s.state.lockedValue, s.state.validRound, s.state.validValue, s.state.round, s.state.step, s.state.timeoutPrevoteScheduled, s.state.lockedValueAndOrValidValueSet, s.state.timeoutPrecommitScheduled, s.isHeightStarted, s.voteCounter
 //@   modifies maps
-//@   assigns heightFresh, calls_AddPrevote, arg_AddPrevote_prevote, calls_AddPrecommit, arg_AddPrecommit_precommit, votecounter.calls_TotalVotingPower
+//@   assigns heightFresh, calls_AddPrevote, arg_AddPrevote_prevote, calls_AddPrecommit, arg_AddPrecommit_precommit, votecounter.calls_TotalVotingPower, calls_AddProposal, arg_AddProposal_proposal
 //@   ensures one_prevote_at_most: calls_AddPrevote == old(calls_AddPrevote) || (calls_AddPrevote == old(calls_AddPrevote) + 1 && old(s.state.step) == types.StepPropose)
 //@   ensures one_precommit_at_most: calls_AddPrecommit == old(calls_AddPrecommit) || (calls_AddPrecommit == old(calls_AddPrecommit) + 1 && old(s.state.step) == types.StepPrevote)
 
@@ -237,7 +240,7 @@ package tendermint
 //@   trusted
 //@   modifies s.state.height, s.state.lockedRound, s.state.lockedValue, s.state.validRound, s.state.validValue, s.state.round, s.state.step, s.state.timeoutPrevoteScheduled, s.state.lockedValueAndOrValidValueSet, s.state.timeoutPrecommitScheduled, s.isHeightStarted, s.voteCounter
 //@   modifies maps
-//@   assigns heightFresh, calls_AddPrevote, arg_AddPrevote_prevote, calls_AddPrecommit, arg_AddPrecommit_precommit, votecounter.calls_TotalVotingPower
+//@   assigns heightFresh, calls_AddPrevote, arg_AddPrevote_prevote, calls_AddPrecommit, arg_AddPrecommit_precommit, votecounter.calls_TotalVotingPower, calls_AddProposal, arg_AddProposal_proposal
 //@   ensures keeps_prefix: len(result) >= len(resultActions) && (forall j int :: 0 <= j && j < len(resultActions) ==> result[j] == old(resultActions[j]))
 
 //@ extern func github.com/NethermindEth/juno/consensus/types.Message.Header
@@ -257,7 +260,7 @@ package tendermint
 //@   requires fresh_height: !s.isHeightStarted ==> heightFresh
 //@   modifies *
 //@   modifies maps
-//@   assigns heightFresh
+//@   assigns heightFresh, calls_AddProposal, arg_AddProposal_proposal
 //@   ensures wal_first: result != nil ==> len(result) >= 1 && istype(result[0], *actions.WriteWAL)
 //@   ensures once: old(s.isHeightStarted) ==> result == nil
 
@@ -285,7 +288,7 @@ package tendermint
 //@   requires s != nil && p != nil
 //@   modifies *
 //@   modifies maps
-//@   assigns calls_AddPrevote, arg_AddPrevote_prevote
+//@   assigns calls_AddPrevote, arg_AddPrevote_prevote, calls_AddProposal, arg_AddProposal_proposal
 //@   ensures recorded: calls_AddPrevote >= old(calls_AddPrevote) + 1
 //@   ensures not_acted_on_before_start: !old(s.isHeightStarted) ==> result == nil && calls_AddPrevote == old(calls_AddPrevote) + 1 && arg_AddPrevote_prevote == p
 //@ func (*stateMachine).ProcessPrecommit
